@@ -24,6 +24,8 @@ def main():
     import core
     import seams
     import reference
+    import isolate
+    isolate.FH_LOG = fh_log
     seams.silence()
     sys.path.insert(0, tree)
     os.chdir(workroot)
@@ -33,8 +35,14 @@ def main():
     try:
         if world_name == "parsers":
             ref = reference.Reference(tree, cwd=trash)
+            own = os.environ.get("PYTHONHASHSEED", "0")
+            alt = os.environ.get("VERIF_REF_HASHSEED")
+            if alt is None:
+                cands = [s for s in core.ALT_HASHSEEDS if str(s) != own]
+                alt = cands[int(os.environ.get("VERIF_WORKER_INDEX", "0")) % len(cands)]
+            ref_x = reference.Reference(tree, cwd=trash, hashseed=alt)
             import world_parsers
-            world = world_parsers.ParsersWorld(tree, workroot, ref)
+            world = world_parsers.ParsersWorld(tree, workroot, ref, ref_x)
         elif world_name == "files":
             ref = reference.Reference(tree, cwd=trash)
             import world_files
@@ -44,7 +52,8 @@ def main():
             world = world_tablecache.TableCacheWorld(tree, workroot)
         else:
             raise RuntimeError("unknown world " + world_name)
-        out.write(json.dumps({"ready": True, "hashseed": os.environ.get("PYTHONHASHSEED")}) + "\n")
+        out.write(json.dumps({"ready": True, "hashseed": os.environ.get("PYTHONHASHSEED"),
+                              "ref_hashseed": getattr(getattr(world, "ref_x", None), "hashseed", None)}) + "\n")
         out.flush()
     except BaseException:  # noqa
         out.write(json.dumps({"ready": False, "error": traceback.format_exc()}) + "\n")
